@@ -6,6 +6,7 @@
 #include "fiber.h"
 #include "fiber_manager.h"
 #include "sched.h"
+#include "fiber_verif.h"
 
 #ifdef __GNUC__
 #define STATIC_ASSERT_HELPER(expr, msg) \
@@ -37,6 +38,7 @@ int fiber_spinlock_lock(fiber_spinlock_t* spinlock) {
 
   const uint32_t my_ticket = atomic_fetch_add_explicit(
       &spinlock->state.counters.users, 1, memory_order_acquire);
+  FIBER_VERIF_POINT(FV_SPIN_TICKET, spinlock, (intptr_t)my_ticket);
   while (atomic_load_explicit(&spinlock->state.counters.ticket,
                               memory_order_acquire) != my_ticket) {
     cpu_relax();
